@@ -191,6 +191,14 @@ fn pem(kind: u8) -> Result<String, String> {
                 let id = some_identity(0);
                 let c = &id.certificate_chain().as_slice()[0];
                 let p = dir.join("cert.pem");
+                for round in 0..25 {
+                    let q = dir.join(format!("cert-{round}.pem"));
+                    c.store_pemfile(&q).await.map_err(|e| format!("store: {e:?}"))?;
+                    let now = std::fs::read_to_string(&q).map_err(|e| format!("{e:?}"))?;
+                    if now != c.to_pem() {
+                        return Err(format!("store_pemfile returned before the data reached the file: {} of {} bytes present (round {round})", now.len(), c.to_pem().len()));
+                    }
+                }
                 c.store_pemfile(&p).await.map_err(|e| format!("store: {e:?}"))?;
                 let back = Certificate::load_pemfile(&p).await.map_err(|e| format!("load: {e:?}"))?;
                 if back.der() != c.der() || back.hash() != c.hash() {
@@ -230,6 +238,17 @@ fn pem(kind: u8) -> Result<String, String> {
                 let ders: Vec<Vec<u8>> = certs.iter().map(|c| c.der().to_vec()).collect();
                 let chain = CertificateChain::new(certs);
                 let p = dir.join("chain.pem");
+                // the data must be in the file when store_pemfile returns (a synchronous read right after it sees it all);
+                // repeated because the hazard is a race with tokio's blocking pool
+                let expected: String = chain.as_slice().iter().map(|c| c.to_pem()).collect();
+                for round in 0..25 {
+                    let q = dir.join(format!("chain-{round}.pem"));
+                    chain.store_pemfile(&q).await.map_err(|e| format!("store: {e:?}"))?;
+                    let now = std::fs::read_to_string(&q).map_err(|e| format!("{e:?}"))?;
+                    if now != expected {
+                        return Err(format!("store_pemfile returned before the data reached the file: {} of {} bytes present (round {round})", now.len(), expected.len()));
+                    }
+                }
                 chain.store_pemfile(&p).await.map_err(|e| format!("store: {e:?}"))?;
                 let back = CertificateChain::load_pemfile(&p).await.map_err(|e| format!("load: {e:?}"))?;
                 let got: Vec<Vec<u8>> = back.as_slice().iter().map(|c| c.der().to_vec()).collect();
